@@ -29,7 +29,7 @@ def first_label(r):
 def rule_owned_operands(ctx, chk, L, rid):
     """every counter add/sub operand and every published order derives from owned terms and scalars only"""
     n = 0
-    for name in MUTATORS:
+    for name in L.mutators():
         b, res, _ = L.paths(name)
         for r in res:
             if not usable(chk, rid, b.defp, b.span, r):
@@ -57,7 +57,7 @@ def rule_owned_operands(ctx, chk, L, rid):
 
 # ----------------------------------------------------------------------------- K3 (= L1 without aliasing)
 def rule_balance_conc(ctx, chk, L, rid):
-    for name in MUTATORS:
+    for name in L.mutators():
         b, res, _ = L.paths(name)
         for r in res:
             if not usable(chk, rid, b.defp, b.span, r):
@@ -75,7 +75,7 @@ def rule_balance_conc(ctx, chk, L, rid):
 # ----------------------------------------------------------------------------- K2 / B4 / L3
 def rule_rmw_only(ctx, chk, L, rid):
     n = 0
-    for name in MUTATORS:
+    for name in L.mutators():
         b, res, _ = L.paths(name)
         for r in res:
             if r.kind in ("unreachable", "panic"):
@@ -92,7 +92,7 @@ def rule_rmw_only(ctx, chk, L, rid):
 
 # ----------------------------------------------------------------------------- B1 / B2 ordering
 def rule_order_of_updates(ctx, chk, L, rid_raise, rid_lower):
-    for name in MUTATORS:
+    for name in L.mutators():
         b, res, _ = L.paths(name)
         for r in res:
             if not usable(chk, rid_raise, b.defp, b.span, r):
@@ -121,7 +121,7 @@ def rule_order_of_updates(ctx, chk, L, rid_raise, rid_lower):
 
 # ----------------------------------------------------------------------------- B3 / L6
 def rule_bounded_decrements(ctx, chk, L, rid):
-    for name in MUTATORS:
+    for name in L.mutators():
         b, res, _ = L.paths(name)
         for r in res:
             if not usable(chk, rid, b.defp, b.span, r):
@@ -143,7 +143,7 @@ def rule_bounded_decrements(ctx, chk, L, rid):
 def rule_windows(ctx, chk, L, rid):
     """an order that stays in the book must never be absent from the id map: flag take(o) ... push/park(o') with id(o')=id(o)"""
     R = L.R
-    for name in MUTATORS:
+    for name in L.mutators():
         b, res, _ = L.paths(name)
         found = {}
         for r in res:
@@ -265,3 +265,81 @@ def rule_removal_returns(ctx, chk, L, rid, rid_notfound, seq=False):
                         "an error answer is accompanied by effects", describe_path(r))
             seen.setdefault(arm, set()).add("err")
     return seen
+
+
+# ----------------------------------------------------------------------------- L0 / K2: nobody else writes the level
+def level_write_sites(L):
+    """[(owner_defp, body_defp, kind, field, span)] for every MIR call / assignment in the crate that mutates an aggregate
+    counter or the queue *of a PriceLevel value* (receiver place projects a field of the PriceLevel ADT)"""
+    from .effects import classify
+    db = L.db
+    level = L.level_adt["def"]
+    fields = set(L.counter_role) | {L.queue_field}
+
+    def level_field(place):
+        for pj in place.get("p", []):
+            if pj.get("k") == "field" and pj.get("adt") == level and pj.get("name") in fields:
+                return pj["name"]
+        return None
+
+    def receiver_field(b, op, depth=0):
+        if op.get("k") not in ("copy", "move") or depth > 4:
+            return None
+        f = level_field(op["place"])
+        if f:
+            return f
+        if op["place"]["p"]:
+            return None
+        l = op["place"]["l"]
+        for blk in b.blocks:
+            for s in blk["stmts"]:
+                if s["k"] == "assign" and s["place"]["l"] == l and not s["place"]["p"]:
+                    rv = s["rv"]
+                    if rv["k"] in ("ref", "rawptr"):
+                        f = level_field(rv["place"])
+                        if f:
+                            return f
+                        if not [x for x in rv["place"]["p"] if x["k"] != "deref"]:
+                            return receiver_field(b, {"k": "copy", "place": {"l": rv["place"]["l"], "p": []}}, depth + 1)
+                    if rv["k"] in ("use", "cast") and isinstance(rv.get("op"), dict):
+                        return receiver_field(b, rv["op"], depth + 1)
+        return None
+
+    out = []
+    for d, b in db.bodies.items():
+        owner = b
+        while owner.kind == "Closure" and owner.parent in db.bodies:
+            owner = db.bodies[owner.parent]
+        for blk in b.blocks:
+            for s in blk["stmts"]:
+                if s["k"] == "assign" and not s.get("exp"):
+                    f = level_field(s["place"])
+                    if f:
+                        out.append((owner.defp, d, "assign", f, s.get("span", "")))
+        for bb, t in b.calls():
+            c = classify(t["callee"])
+            if c is None or not t["args"]:
+                continue
+            mut = (c[0] == "ATOMIC" and c[1] not in ("load", "new", "default", "fmt", "clone")) or (c[0] == "Q" and c[1] in ("push", "pop", "remove"))
+            if not mut:
+                continue
+            f = receiver_field(b, t["args"][0])
+            if f:
+                out.append((owner.defp, d, "%s.%s" % c, f, t["span"]))
+    return out
+
+
+def rule_unanalysed_writers(ctx, chk, L, rid):
+    """every function that writes a level's counters or queue is one of the analysed mutators or is reached (and hence
+    inlined) from one: there is no writer the ledger does not see"""
+    muts = []
+    for name in L.mutators():
+        muts.append(L.paths(name)[0].defp)
+    reach = set(ctx.cg.reach(muts))
+    sites = level_write_sites(L)
+    chk.require(len(sites) >= 8, rid, "level-write-sites", "", "only %d write sites found" % len(sites))
+    chk.stats["level_write_sites"] = len(sites)
+    for owner, d, kind, f, span in sites:
+        chk.require(owner in reach or d in reach, rid, "%s:unanalysed-writer" % owner, span,
+                    "%s on PriceLevel.%s in %s, which is neither an analysed mutator (%s) nor reached from one" % (
+                        kind, f, d, ", ".join(m.split("::")[-1] for m in muts)))
